@@ -70,6 +70,10 @@ def nodeShaped : List Ev → Option (List Ev)
   | .wm w :: .poll :: rest => (nodeShaped rest).map (Ev.wm w :: ·)
   | _ => none
 
+def nonDecreasing : List Int → Bool
+  | a :: b :: rest => decide (a ≤ b) && nonDecreasing (b :: rest)
+  | _ => true
+
 def judgeTrigGo : List RLeaf → List Ev → List (List Key) → Nat → String
   | ls, [], [p], _ =>
     if sameGroups p (ls.flatMap rfinal) then "ok" else "bad end-of-stream-poll-wrong"
@@ -89,6 +93,9 @@ def judgeTrig (toks : List String) (out : List String) : String :=
       if !(es.all fun e => match e with
             | .key k => cfg.init.idxOk k.length
             | _ => true) then "ok"               -- the Go code panics by construction
+      else if !nonDecreasing (es.filterMap fun e => match e with
+            | .wm w => some w
+            | _ => none) then "ok"               -- watermarks that go backwards: not a valid watermarked input
       else match parsePolls out with
         | none => "bad impl-" ++ String.intercalate "_" (out.take 3)
         | some polls => judgeTrigGo (flatten cfg) es polls 0
@@ -147,6 +154,7 @@ def judgeGb (toks : List String) (out : List String) : String :=
   | some op =>
     if !(recs op.stream).all (fun r => stepOk op.conf r.vals) then "ok"
     else if !(validFast (recs op.stream) && validFast (recs (buffer op.stream))) then "ok"
+    else if !nonDecreasing (wms op.stream) then "ok"
     else match out with
       | "ok" :: ms =>
         match parseMsgs ms with
